@@ -73,6 +73,9 @@ func (g *docGen) forced(tag string) bool {
 
 func (g *docGen) validDoc() JV { return g.val(srcRef(g.d.Root), 0) }
 
+// validDocOf draws a valid document for another definition than the root.
+func (g *docGen) validDocOf(name string) JV { return g.val(srcRef(name), 0) }
+
 var dtPool = []string{"2023-01-02T03:04:05Z", "2021-06-15T08:30:00.25Z", "2020-01-01T00:00:00+02:00", "2016-02-29T23:59:59-07:00"}
 var dtOffsetPool = []string{"1999-12-31T23:59:59+05:30", "2024-02-29T12:00:00-03:30", "2010-10-10T10:10:10+05:45"}
 
